@@ -137,6 +137,8 @@ OidRows(rows) == rows[1].oid # <<>>
 TIoSeq(rows, ext, sfx) == [k |-> "SEQUENCE", comps |-> <<Comp("id" \o sfx, IF OidRows(rows) THEN TIoOid ELSE TIoId, "M"),
                                                         Comp("val" \o sfx, TOpen(rows, ext), "M")>>,
                             ext |-> FALSE, adds |-> <<>>, ioc |-> TRUE]
+\* the same with an OPTIONAL open type component
+TIoSeqOpt(rows, ext, sfx) == [TIoSeq(rows, ext, sfx) EXCEPT !.comps[2].o = "O"]
 IsIoSeq(T) == T.k = "SEQUENCE" /\ "ioc" \in DOMAIN T
 ChoiceLike(k) == k \in {"CHOICE", "OPEN"}
 
@@ -273,10 +275,11 @@ RECURSIVE IocConsistent(_, _, _)
 IocConsistent(env, T0, v) ==
   LET T == Resolve(env, T0) IN
   CASE IsIoSeq(T) ->
-         /\ IsPres(v[1]) /\ IsPres(v[2])
-         /\ \E i \in DOMAIN IoRows(T) : /\ IoRows(T)[i].n = AltOf(v[2][1])
-                                       /\ SameValue(env, T.comps[1].t, IdVal(IoRows(T)[i]), v[1][1])
-         /\ IocConsistent(env, CompByName(T.comps[2].t, AltOf(v[2][1])).t, AltVal(v[2][1]))
+         /\ IsPres(v[1])
+         /\ IsPres(v[2]) =>
+              /\ \E i \in DOMAIN IoRows(T) : /\ IoRows(T)[i].n = AltOf(v[2][1])
+                                            /\ SameValue(env, T.comps[1].t, IdVal(IoRows(T)[i]), v[1][1])
+              /\ IocConsistent(env, CompByName(T.comps[2].t, AltOf(v[2][1])).t, AltVal(v[2][1]))
     [] T.k \in {"SEQUENCE", "SET"} ->
          \A i \in DOMAIN AllComps(T) : IsPres(v[i]) => IocConsistent(env, AllComps(T)[i].t, v[i][1])
     [] T.k = "CHOICE" -> IocConsistent(env, CompByName(T, AltOf(v)).t, AltVal(v))
